@@ -514,6 +514,16 @@ where
         JarKind::TrackedFn
     }
 
+    #[cfg(salsa_rs_salsa_verif)]
+    fn verif_dump(&self, _zalsa: &Zalsa, out: &mut Vec<String>) {
+        out.push(format!(
+            "fn {} name={} eviction=({})",
+            self.index.as_u32(),
+            C::DEBUG_NAME,
+            self.eviction.verif_dump()
+        ));
+    }
+
     fn memo_table_types(&self) -> &Arc<MemoTableTypes> {
         unreachable!("function does not allocate pages")
     }
